@@ -1924,7 +1924,7 @@ class AdvancedTag(object):
 
         # Check if we need to match against any other names
         if len(classNames) > 0:
-            elements = [ em for em in elements for matchClassName in classNames  if matchClassName in em.classList ]
+            elements = [ em for em in elements if len([ matchClassName for matchClassName in classNames if matchClassName not in em.classList ]) == 0 ]
 
         return TagCollection(elements)
 
